@@ -231,6 +231,8 @@ OPTION_VECTORS = [
     ["-f", "--layer", "wm"], ["-f", "--layer", "UnitTests"], ["--layer", "!wm"], ["--layer", "UnitTests"],
     ["-u", "-f", "--layer", "L2"], ["--layer", "L1", "--layer", "L1"], ["-a", "0"], ["--all", "--only-level", "1"],
     ["-f", "--layer", "."], ["-f", "--layer", "!wm"], ["-u", "--layer", "."], ["-u", "--layer", "UnitTests"],
+    ["--layer", "wm.L1", "--layer", "!L1"], ["--layer", "wm.L2", "--layer", "!wm"], ["--layer", "wm.L1", "--layer", "wm.L2", "--layer", "!L2"],
+    ["--layer", "wm.Store", "--layer", "!Store"], ["--layer", "^wm.L1$"], ["--layer", "wm.L1$", "--layer", "!^wm"],
 ]
 LAYER_NAME_SETS = [
     [UNIT, "wm.L1", "wm.L2"], ["wm.L1"], [UNIT], ["wm.L2", UNIT, "wm.L1", "other.Layer"], [],
@@ -329,6 +331,17 @@ def run_layers(ctx):
             ctx.violation("a child process for layer %r keeps layers %r of %r" % (resume, kept, names), case,
                           signature="child-layer-selection")
             continue
+        # ---- monitor: --layer patterns decide through the C08 predicate, whatever their spelling
+        if resume is None and "--layer" in args and "-u" not in args and "-f" not in args:
+            import re as _re2
+            pos = [p for p in pats if not p.startswith("!")]
+            neg = [p[1:] for p in pats if p.startswith("!")]
+            want = [n for n in names if (any(_re2.search(p, n) for p in pos) or (not pos and neg))
+                    and not any(_re2.search(p, n) for p in neg)]
+            if kept != want:
+                ctx.violation("--layer patterns %r keep layers %r of %r, the filter predicate keeps %r" % (pats, kept, names, want),
+                              case, signature="layer-patterns")
+                continue
         # ---- monitor: the switches in combination with --layer (parent process)
         if resume is None and "--layer" in args:
             u, f = "-u" in args, "-f" in args
